@@ -76,7 +76,8 @@ def check_history(job):
             tab = it.slots[op.args[0]]
             arg = it.slots[op.args[1].val]
             members = tab.columns if op.code == 51 else tab.indexes
-            d23 = (not any(m is arg for m in members)) and any(m == arg for m in members)
+            first_eq = next((m for m in members if m == arg), None)
+            d23 = first_eq is not None and first_eq is not arg
         if op.code == 60 and isinstance(it.slots[op.args[0]], Table) and op.args[1] in (1, 2, 3) \
                 and any(it.slots[op.args[0]] is t for t in spec['tables']):
             renamed = True
